@@ -207,6 +207,18 @@ theorem recover_after_truncate (es es' : List (Text × Text)) (hts : TsOk es) (h
   obtain ⟨j, x, _, _, _, _, _, h6⟩ := truncate_then_append es es' hts hts' k
   exact ⟨_, by rw [h6, List.append_assoc]⟩
 
+/-- RECOVERY FROM ANYTHING: whatever bytes the file contains (torn records, foreign data, invalid
+    UTF-8 …), loading does not fail and entries appended afterwards are all read back, in order,
+    in front of whatever the old content yields. -/
+theorem recover_after_garbage (g : Bytes) (es' : List (Text × Text)) (hts' : TsOk es') :
+    ∃ junk : List Text,
+      loadFile utf8 (g ++ stores utf8 es') = (es'.map (·.2)).reverse ++ junk := by
+  obtain ⟨junk, h⟩ := loadRun_garbage_then utf8_good g es' hts' ⟨[], []⟩
+  exact ⟨junk.reverse, by simp [loadFile, h]⟩
+
+example : loadFile utf8 ([0x2B, 0xF0, 0x9F, 10, 0xFF, 0x2B] ++ stores utf8 [("T".toList, "x".toList)])
+    = ["x".toList, [repl]] := by decide
+
 /-! ## (b) ThreadedHistory -/
 
 /-- NO OVERLAP ⇒ EXACT: in every interleaving in which no `append_string` overlaps a `load()`
